@@ -15,10 +15,10 @@ starts after OnDeactivate started; 4: never concurrent on different goroutines).
 
 Result: FALSE of the current code (`C31_refuted` and three witnesses): a grain without reentrancy is
 deactivated by the passivation manager on the manager's own goroutine (overlap with OnReceive, and
-a second OnDeactivate when it races a PoisonPill), and `handleGrainContext` delivers the messages
-queued behind a PoisonPill / passivation pill to the instance that was just deactivated.
+a second OnDeactivate when it races a PoisonPill, an OnReceive started after it).  (`handleGrainContext`
+delivering the messages queued behind a pill to the deactivated instance was fixed by 6dc1e0c.)
 TRUE: all four clauses on schedules in which sends and deactivations do not overlap (`C31_partial`);
-for every schedule: clause 1 (`C31_activate_first`); clauses 2 and 4 whenever deactivation only
+for every schedule: clause 1 (`C31_activate_first`); all four clauses whenever deactivation only
 happens inside the turn (`C31_inturn`); a send that finds the process deleted goes to a fresh
 process, and deletion is permanent (`C31_send_after_deactivation`).
 -/
@@ -62,13 +62,24 @@ def witnessDirect : List Nat := [1, 1, 1, 0, 0, 2, 2]
 theorem C31_overlap_direct_passivation :
     (monOf (run (init false 32 (progOf [.aB false, .mCheck])) witnessDirect).log).c4 = false := by decide
 
-/-- clause 3 witness — works with and without reentrancy: a PoisonPill and then a message are
-    enqueued while the grain is active; the turn handles the pill (OnDeactivate, inside the turn) and
-    then hands the queued message to OnReceive of the deactivated instance. -/
-def witnessBehindPill : List Nat := [1, 1, 1, 0, 0, 0, 2, 2, 3, 3, 0, 0, 0, 0, 0, 0]
+/-- regression for fix 6dc1e0c (finding C31-F2, fixed): a PoisonPill and then a message are enqueued
+    while the grain is active; the turn handles the pill (OnDeactivate, inside the turn) and then FAILS
+    the queued message instead of handing it to OnReceive of the deactivated instance. -/
+def scheduleBehindPill : List Nat := [1, 1, 1, 0, 0, 0, 2, 2, 3, 3, 0, 0, 0, 0, 0, 0]
 
-theorem C31_receive_after_deactivate :
-    (monOf (run (init true 32 (progOf [.aB false, .sEnsure true, .sEnsure false])) witnessBehindPill).log).c3 = false := by
+theorem C31_message_behind_pill_not_received :
+    (monOf (run (init true 32 (progOf [.aB false, .sEnsure true, .sEnsure false])) scheduleBehindPill).log).ok = true
+    ∧ (run (init true 32 (progOf [.aB false, .sEnsure true, .sEnsure false])) scheduleBehindPill).box = []
+    ∧ (run (init true 32 (progOf [.aB false, .sEnsure true, .sEnsure false])) scheduleBehindPill).deleted = true := by
+  decide
+
+/-- clause 3 witness — no reentrancy: two messages queued; between them the manager's direct
+    deactivation begins (`activated` stays true until its end), and the turn starts the second
+    OnReceive after OnDeactivate has started. -/
+def witnessRecvAfterDirect : List Nat := [1, 1, 1, 2, 2, 0, 0, 0, 3, 3, 0]
+
+theorem C31_receive_after_direct_deactivate :
+    (monOf (run (init false 32 (progOf [.aB false, .sEnsure false, .mCheck])) witnessRecvAfterDirect).log).c3 = false := by
   decide
 
 /-- clause 2 witness — no reentrancy: the manager is inside its direct deactivation (OnDeactivate
@@ -324,7 +335,7 @@ theorem ginv_init (reent : Bool) (budget : Nat) (prog : Nat → GT) (hp : admiss
     by_cases hi : i = 0
     · subst hi; simp [h0] at h
     · have := hrest i hi; simp [h, GT.initial] at this
-  constructor <;> simp [init, Mon.init, okBox, lateDirect, GW.inDea]
+  constructor <;> simp [init, Mon.init, lateDirect]
   · intro i
     cases hpi : prog i <;> simp [GT.direct]
     exact absurd hpi (hnd i _)
@@ -340,12 +351,9 @@ theorem ginv_run (c : Cfg) (s : List Nat) (hB : Base c) (hG : GInv c) (hg : guar
 
 /-- `C31_partial`: all four clauses hold on every history of every execution — any pool, any length,
     with or without reentrancy — whose schedule satisfies `okStep` at every step, i.e. in which
-    (a) a user message is handed to the mailbox only while the process is active, no PoisonPill or
-        passivation pill is queued and no deactivation is in progress ("sends are not concurrent with
-        a deactivation"), and
-    (b) the passivation manager starts its direct deactivation only on a grain that is idle with an
-        empty mailbox, no turn starts while it runs, and at most one runs at a time.
-    The guard excludes exactly the interleavings of the three witnesses above. -/
+    the passivation manager starts its direct deactivation only while no turn of the grain is in
+    progress, no turn starts while it runs, and at most one runs at a time (sends are unrestricted
+    since fix 6dc1e0c).  The guard excludes exactly the interleavings of the three witnesses above. -/
 theorem C31_partial (reent : Bool) (budget : Nat) (prog : Nat → GT) (hp : admissible prog)
     (s : List Nat) (hg : guarded (init reent budget prog) s = true) :
     (monOf (run (init reent budget prog) s).log).ok = true := by
@@ -375,23 +383,24 @@ structure InTurn (c : Cfg) : Prop where
   kb : ∀ v b, c.w = .dea .deaB v b → c.active = true
   early0 : c.mon.preDone = false → c.mon.posts = 0
   ok2 : c.mon.c2 = true
+  ok3 : c.mon.c3 = true
   ok4 : c.mon.c4 = true
 
 theorem inturn_w (c : Cfg) (hB : Base c) (hT : InTurn c) : InTurn (wStep c) := by
-  obtain ⟨nd1, nd2, recvBy, postBy, k, kb, early0, ok2, ok4⟩ := hT
+  obtain ⟨nd1, nd2, recvBy, postBy, k, kb, early0, ok2, ok3, ok4⟩ := hT
   have hq := hB.quiet
   unfold wStep
   split <;> (try split) <;> (try split) <;>
     (constructor <;> (try assumption) <;> simp_all [emit, monStep, finish, GW.inDeaLate, sameOrNone, wid] <;> (try assumption))
 
 theorem inturn_t (c : Cfg) (i : Nat) (hB : Base c) (hT : InTurn c) : InTurn (tStep c i) := by
-  obtain ⟨nd1, nd2, recvBy, postBy, k, kb, early0, ok2, ok4⟩ := hT
+  obtain ⟨nd1, nd2, recvBy, postBy, k, kb, early0, ok2, ok3, ok4⟩ := hT
   have hnd := nd1 i
   unfold tStep
   simp only []
   split
-  · exact ⟨nd1, nd2, recvBy, postBy, k, kb, early0, ok2, ok4⟩
-  · exact ⟨nd1, nd2, recvBy, postBy, k, kb, early0, ok2, ok4⟩
+  · exact ⟨nd1, nd2, recvBy, postBy, k, kb, early0, ok2, ok3, ok4⟩
+  · exact ⟨nd1, nd2, recvBy, postBy, k, kb, early0, ok2, ok3, ok4⟩
   · rename_i p hpc
     constructor <;> (try intro j) <;> (try (by_cases hj : j = i)) <;>
       simp_all [emit, monStep, setT, GT.direct] <;> (first | assumption | exact nd2 _ | exact kb _ | skip)
@@ -406,7 +415,7 @@ theorem inturn_t (c : Cfg) (i : Nat) (hB : Base c) (hT : InTurn c) : InTurn (tSt
       simp_all [emit, monStep, setT, GT.direct] <;> (first | assumption | exact nd2 _ | exact kb _ | skip)
   · split <;> (try split) <;> (try split) <;>
       (first
-        | exact ⟨nd1, nd2, recvBy, postBy, k, kb, early0, ok2, ok4⟩
+        | exact ⟨nd1, nd2, recvBy, postBy, k, kb, early0, ok2, ok3, ok4⟩
         | (constructor <;> (try intro j) <;> (try (by_cases hj : j = i)) <;> simp_all [setT, GT.direct] <;> (first | assumption | exact nd2 _ | exact kb _ | skip)))
   · split <;>
       (constructor <;> (try intro j) <;> (try (by_cases hj : j = i)) <;> simp_all [setT, GT.direct] <;> (first | assumption | exact nd2 _ | exact kb _ | skip))
@@ -431,13 +440,12 @@ theorem inturn_run (c : Cfg) (s : List Nat) (hB : Base c) (hT : InTurn c) : InTu
 /-- `C31_inturn`: if the grain carries a reentrancy state (so the passivation manager only sends a
     pill through the mailbox) or no passivation attempt exists at all — i.e. every deactivation runs
     inside the grain's turn: PoisonPill from a user or from system shutdown, passivation pill — then
-    for EVERY pool and EVERY schedule OnDeactivate starts at most once and never overlaps an
-    OnReceive (clauses 2 and 4), and OnActivate precedes every OnReceive (clause 1). -/
+    for EVERY pool and EVERY schedule ALL FOUR clauses hold: OnActivate precedes every OnReceive,
+    OnDeactivate starts at most once, no OnReceive starts after it (messages queued behind the pill
+    are failed: fix 6dc1e0c) and it never overlaps an OnReceive. -/
 theorem C31_inturn (reent : Bool) (budget : Nat) (prog : Nat → GT) (hp : admissible prog)
     (hsafe : reent = true ∨ ∀ i, prog i ≠ .mCheck) (s : List Nat) :
-    (monOf (run (init reent budget prog) s).log).c1 = true ∧
-    (monOf (run (init reent budget prog) s).log).c2 = true ∧
-    (monOf (run (init reent budget prog) s).log).c4 = true := by
+    (monOf (run (init reent budget prog) s).log).ok = true := by
   have hB := base_init reent budget prog hp
   have hT : InTurn (init reent budget prog) := by
     obtain ⟨⟨p, h0⟩, hrest⟩ := hp
@@ -453,7 +461,7 @@ theorem C31_inturn (reent : Bool) (budget : Nat) (prog : Nat → GT) (hp : admis
       · exact absurd hi (h i)
   have h := inturn_run _ s hB hT
   rw [← C31_mon_is_log]
-  exact ⟨(base_run _ s hB).ok1, h.ok2, h.ok4⟩
+  simp [Mon.ok, (base_run _ s hB).ok1, h.ok2, h.ok3, h.ok4]
 
 example : (run (init false 32 (progOf [.aB false, .sEnsure true, .sEnsure false]))
     [1, 1, 1, 0, 0, 0, 0, 2, 2, 0, 0, 0, 0, 0]).deleted = true := by decide
